@@ -80,17 +80,23 @@ def layer_harnesses() -> List[H]:
             # IPv4: version/IHL byte enumerated (stamp), everything else symbolic.
             # quick: IHL 5, 6 (options), 3 (invalid, < 5), 15 in a short buffer (truncated options)
             dq = [(19, 0, 0x45), (20, 0, 0x45), (24, 0, 0x45), (24, 0, 0x46), (24, 0, 0x43), (24, 0, 0x4F),
-                  (38, 14, 0x45), (20, 0, -1)]
+                  (38, 14, 0x45), (20, 0, -1),
+                  # header behind an Ethernet header: options complete / cut inside the options
+                  (38, 14, 0x46), (37, 14, 0x46), (40, 14, 0x46)]
             dt = [(l, 0, 0x45) for l in _lens_full(20, 0)]
             dt += [(20 + 4 * (i - 5) + 2, 0, 0x40 + i) for i in range(5, 16)]          # every IHL, options fit
             dt += [(20 + 4 * (i - 5) - 1, 0, 0x40 + i) for i in range(6, 16)]          # options cut by one byte
             dt += [(24, 0, 0x40 + i) for i in range(0, 5)] + [(24, 0, 0x65), (64, 0, 0x4F), (78, 14, 0x4F),
                                                               (37, 18, 0x45), (38, 18, 0x45), (42, 18, 0x46)]
+            for off in (14, 18):                                                       # same at non-zero offsets
+                dt += [(off + 4 * i, off, 0x40 + i) for i in (6, 7, 10, 15)]           # options just fit
+                dt += [(off + 4 * i - 1, off, 0x40 + i) for i in (6, 7, 10, 15)]       # cut by one byte
+                dt += [(off + 21, off, 0x40 + i) for i in (6, 15)]                     # cut right after the fixed header
             stamps(lname, "dec", "quick", dq, "C16", "dec")
             stamps(lname, "dec", "thorough", dt, "C16", "dec")
             stamps(lname, "payoff", "quick", [(24, 0, 0x45), (24, 0, 0x46), (24, 0, 0x43)], "C16", "payoff")
             stamps(lname, "payoff", "thorough", [(64, 0, 0x4F), (44, 14, 0x47), (20, 0, 0x45), (24, 0, 0x65)], "C16", "payoff")
-            sq = [(20, 0, 0x45), (24, 0, 0x45), (24, 0, 0x46), (24, 0, 0x43)]
+            sq = [(20, 0, 0x45), (24, 0, 0x45), (24, 0, 0x46), (24, 0, 0x43), (40, 14, 0x46)]
             st = [(l, 0, 0x45) for l in range(20, 27)]
             st += [(20 + 4 * (i - 5) + 2, 0, 0x40 + i) for i in range(5, 16)]
             st += [(24, 0, 0x40 + i) for i in range(0, 5)] + [(64, 0, 0x4F), (78, 14, 0x4F), (42, 18, 0x46), (24, 0, 0x65)]
@@ -184,6 +190,17 @@ def setter_harnesses() -> List[H]:
                 f"|x, v| x.{meth}(v), {str(boolv).lower()}, {pin})")
         out.append(H(f"c17_{lname}_set_{prop}", "C17", tier, call, f"{lname}_set_{prop}",
                      f"{l} buffer bytes, assigned value any i64, 1 symbolic compare index", unwind_of(lname, l, 0), timeout=600))
+    # IPv4 setters on a header WITH options (version/IHL byte 0x46, 4 option bytes, 4 payload bytes)
+    for (lname, prop, meth, k, bo, w, alias, boolv) in SETTERS:
+        if lname != "ipv4":
+            continue
+        al = "MAXF" if alias is None else str(alias)
+        tier = "quick" if prop in ("ihl", "totlen") else "thorough"
+        call = (f"set::<Ipv4Packet, 28>(0, Field {{ k: {k}, bo: {bo}, w: {w} }}, {al}, "
+                f"|x, v| x.{meth}(v), {str(boolv).lower()}, 0x46)")
+        out.append(H(f"c17_ipv4_set_{prop}_b46", "C17", tier, call, f"ipv4_set_{prop}",
+                     "28 buffer bytes (byte 0 = 0x46: IHL 6, options present), assigned value any i64, 1 symbolic compare index",
+                     unwind_of("ipv4", 28, 0), timeout=600))
     # TCP flags setter under the three RFC readings (any-of, same group rule as C16)
     for alt, ty in TCPW.items():
         wbits = int(alt[3:])
